@@ -41,6 +41,7 @@ private theorem step_inv (auth : Bool) (modes : Nat → Mode) (σ : State) (cid 
   | closed => simpa using h
   | outer =>
     cases e with
+    | drop => simpa using h
     | connect =>
       by_cases hm : m.isHttpProxy = true
       · simp only [hm, if_true]
@@ -73,6 +74,18 @@ private theorem step_inv (auth : Bool) (modes : Nat → Mode) (σ : State) (cid 
     have hin : cid ∈ σ.tunneled := (h.1 cid opened hp).1
     have hpm : (modes cid).isHttpProxy = true := (h.1 cid opened hp).2
     cases e with
+    | drop =>
+      constructor
+      · intro c o hc
+        by_cases hcc : c = cid
+        · subst hcc; exact ⟨by simpa [State.setPhase] using hin, hpm⟩
+        · simp only [State.setPhase, hcc, if_false] at hc
+          simpa [State.setPhase] using h.1 c o hc
+      · intro c hc
+        by_cases hcc : c = cid
+        · simp [State.setPhase, hcc] at hc
+        · simp only [State.setPhase, hcc, if_false] at hc
+          simpa [State.setPhase] using h.2 c hc
     | connect =>
       constructor
       · intro c o hc
@@ -110,6 +123,7 @@ private theorem step_allowed (auth : Bool) (modes : Nat → Mode) (σ : State) (
   | outer =>
     have hout : cid ∉ σ.tunneled := h.2 cid hp
     cases e with
+    | drop => simp
     | connect => by_cases hm : m.isHttpProxy = true <;> simp [hm]
     | req https =>
       cases m <;> cases https <;> cases auth <;>
@@ -118,6 +132,7 @@ private theorem step_allowed (auth : Bool) (modes : Nat → Mode) (σ : State) (
     have hin : cid ∈ σ.tunneled := (h.1 cid opened hp).1
     have hpm : m.isHttpProxy = true := hmm ▸ (h.1 cid opened hp).2
     cases e with
+    | drop => simp
     | connect => simp
     | req https =>
       cases m <;> cases opened <;> cases auth <;>
@@ -194,11 +209,13 @@ private theorem step_needed (modes : Nat → Mode) (m : Mode) (σ : State) (cid 
   | outer =>
     have hout : cid ∉ σ.tunneled := h.2 cid hp
     cases e with
+    | drop => simp
     | connect => by_cases hm : m.isHttpProxy = true <;> simp [hm]
     | req https =>
       cases m <;> cases https <;> simp [hout, requestheaders, connectUpstream, transparentDest]
   | tunnel opened =>
     cases e with
+    | drop => simp
     | connect => simp
     | req https => cases m <;> cases opened <;> simp [connectUpstream]
 
@@ -279,6 +296,45 @@ example : runVar (fun _ => .upstream) State.init [(0, false, .connect), (0, true
      (0, .response, [⟨.proxy, .connect, false, some .proxyAuthorization⟩, ⟨.originViaTunnel, .request, false, none⟩]),
      (1, .response, [⟨.proxy, .request, false, some .proxyAuthorization⟩])] := by decide +kernel
 
+private theorem step_tunneled_mono (auth : Bool) (m : Mode) (σ : State) (c0 : Nat) (e : Ev) (x : Nat)
+    (hx : x ∈ σ.tunneled) : x ∈ (step auth m σ c0 e).1.tunneled := by
+  unfold step stepWith
+  cases hp : σ.phase c0 <;> cases e <;> cases m <;> (try cases ‹Bool›) <;>
+    simp [State.setPhase, Mode.isHttpProxy, hx]
+
+/-- **`tunneled` is a property of the client connection for its whole life**: over every history — with server
+    disconnects and option changes anywhere — a client that is in `UpstreamAuth.tunneled` stays in it. -/
+theorem tunneled_for_the_whole_life_of_the_client_connection (modes : Nat → Mode) (cid : Nat) :
+    ∀ (es : List (Nat × Bool × Ev)) (σ : State), cid ∈ σ.tunneled →
+      cid ∈ (es.foldl (fun s x => (step x.2.1 (modes x.1) s x.1 x.2.2).1) σ).tunneled := by
+  intro es
+  induction es with
+  | nil => intro σ h; simpa using h
+  | cons x rest ih =>
+    intro σ h
+    obtain ⟨c0, auth, e⟩ := x
+    simp only [List.foldl_cons]
+    exact ih _ (step_tunneled_mono auth (modes c0) σ c0 e cid h)
+
+/-- a server disconnect leaves the client connection where it is: still in its tunnel (the upstream side is simply
+    connected again, with a new CONNECT, when next needed), still in `tunneled`; nothing is written -/
+theorem server_disconnect_keeps_tunnel (auth : Bool) (m : Mode) (σ : State) (cid : Nat) :
+    (step auth m σ cid .drop).1.tunneled = σ.tunneled ∧ (step auth m σ cid .drop).2.2 = [] ∧
+    (∀ o, σ.phase cid = .tunnel o → (step auth m σ cid .drop).1.phase cid = .tunnel false) ∧
+    (σ.phase cid = .outer → (step auth m σ cid .drop).1.phase cid = .outer) := by
+  unfold step stepWith
+  cases hp : σ.phase cid <;> simp [State.setPhase, hp]
+
+-- seed c24-4's history: CONNECT, request, the upstream connection drops, another request — still no credential in the
+-- tunnel, and mitmproxy's new CONNECT to the proxy carries it
+example : runVar (fun _ => .upstream) State.init
+    [(0, true, .connect), (0, true, .req false), (0, true, .drop), (0, true, .req false)] =
+    [(0, .tunnel, []),
+     (0, .response, [⟨.proxy, .connect, false, some .proxyAuthorization⟩, ⟨.originViaTunnel, .request, false, none⟩]),
+     (0, .noop, []),
+     (0, .response, [⟨.proxy, .connect, false, some .proxyAuthorization⟩, ⟨.originViaTunnel, .request, false, none⟩])] := by
+  decide +kernel
+
 /-! ## Round 3: the routing model — the connection parameters are predicted, reuse included -/
 
 section Routing
@@ -347,6 +403,7 @@ private theorem rstep_allowed (auth : Bool) (m : Mode) (tn : Bool) (s : CState) 
   | closed => simp [hp] at hc
   | outer =>
     cases e with
+    | drop => simp [hp] at hc
     | connect host port => by_cases hm : m.isHttpProxy = true <;> simp [hp, hm] at hc
     | req host port https =>
       by_cases hm : m.isHttpProxy = true
@@ -398,6 +455,7 @@ private theorem rstep_allowed (auth : Bool) (m : Mode) (tn : Bool) (s : CState) 
   | tunnel =>
     obtain ⟨htn, hmp⟩ := h1 hp
     cases e with
+    | drop => simp [hp] at hc
     | connect host port => simp [hp] at hc
     | req host port https =>
       have hne : ((RPhase.tunnel == RPhase.outer) = false) := by decide
@@ -426,6 +484,7 @@ private theorem rstep_cinv (auth : Bool) (m : Mode) (tn : Bool) (s : CState) (e 
   | closed => exact ⟨by simp [hp], by simpa using h2, by intro c hc; simpa [hp] using h3 c hc⟩
   | outer =>
     cases e with
+    | drop => exact ⟨by simp [hp], by simp, by intro c hc; simpa [hp] using h3 c hc⟩
     | connect host port =>
       by_cases hm : m.isHttpProxy = true
       · simp only [hm, if_true]
@@ -473,6 +532,7 @@ private theorem rstep_cinv (auth : Bool) (m : Mode) (tn : Bool) (s : CState) (e 
   | tunnel =>
     obtain ⟨htn, hmp⟩ := h1 hp
     cases e with
+    | drop => exact ⟨by simp [hp, htn, hmp], by simp, by intro c hc; simpa [hp] using h3 c hc⟩
     | connect host port =>
       refine ⟨by simp, by simpa using h2, ?_⟩
       intro c hc
